@@ -66,6 +66,20 @@ type Run struct {
 	casesRun int64
 }
 
+// ScratchBase returns the directory under which run-time scratch directories are created.
+func ScratchBase() string {
+	base := os.Getenv("VERIF_SCRATCH_BASE")
+	if base == "" {
+		if st, err := os.Stat("/dev/shm"); err == nil && st.IsDir() {
+			base = "/dev/shm"
+		} else {
+			base = filepath.Join(Root(), ".scratch")
+			_ = os.MkdirAll(base, 0o755)
+		}
+	}
+	return base
+}
+
 func NewRun(prop, tier string, seed int64, only, level string) *Run {
 	r := &Run{
 		Prop: prop, Tier: tier, Seed: seed, Only: only, Level: level,
@@ -81,20 +95,17 @@ func NewRun(prop, tier string, seed int64, only, level string) *Run {
 		known:        map[string]string{},
 	}
 	r.loadKnown()
-	base := os.Getenv("VERIF_SCRATCH_BASE")
-	if base == "" {
-		if st, err := os.Stat("/dev/shm"); err == nil && st.IsDir() {
-			base = "/dev/shm"
-		} else {
-			base = filepath.Join(Root(), ".scratch")
-			_ = os.MkdirAll(base, 0o755)
+	base := ScratchBase()
+	if d := os.Getenv("VERIF_SCRATCH_DIR"); d != "" {
+		// created (and finally removed) by the supervisor, so that nothing is left behind when this process dies
+		r.Scratch = d
+	} else {
+		d, err := os.MkdirTemp(base, "verif-"+prop+"-")
+		if err != nil {
+			panic(err)
 		}
+		r.Scratch = d
 	}
-	d, err := os.MkdirTemp(base, "verif-"+prop+"-")
-	if err != nil {
-		panic(err)
-	}
-	r.Scratch = d
 	if p := os.Getenv("VERIF_PROGRESS"); p != "" {
 		r.progress, _ = os.OpenFile(p, os.O_CREATE|os.O_WRONLY|os.O_APPEND, 0o644)
 	}
@@ -435,7 +446,7 @@ func (r *Run) Finish() int {
 		"wall_s":      time.Since(r.start).Seconds(),
 		"violations":  r.violations,
 	}
-	if r.Only == "" {
+	if r.Only == "" && os.Getenv("VERIF_NO_EVIDENCE") == "" {
 		dir := filepath.Join(Root(), "evidence")
 		_ = os.MkdirAll(dir, 0o755)
 		b, err := json.MarshalIndent(ev, "", " ")
@@ -447,6 +458,10 @@ func (r *Run) Finish() int {
 	}
 	for _, why := range r.inconclusive {
 		fmt.Printf("INCONCLUSIVE property=%s reason=%s\n", r.Prop, why)
+	}
+	if p := os.Getenv("VERIF_PROGRESS"); p != "" {
+		// tells the supervisor that this exit code is a verdict (the Go runtime also exits with 2 on a fatal error)
+		_ = os.WriteFile(p+".done", []byte(fmt.Sprint(code)), 0o644)
 	}
 	fmt.Printf("RESULT property=%s tier=%s seed=%d verdict=%s evaluations=%d distinct=%d violations=%d wall=%.1fs\n",
 		r.Prop, r.Tier, r.Seed, verdict, r.evals, len(r.distinct), r.violations, time.Since(r.start).Seconds())
